@@ -3,69 +3,6 @@ import Model.Rotation
     b021/b027), re-based on `Model/Rotation.lean`; the rest lifts them over histories of operations. Core-only. -/
 namespace Rot
 
-/-- the shift that the rename chain implements -/
-def shift (cfg : Cfg) (f : Files) : Files := fun j =>
-  if j = 0 then none else if j ≤ cfg.maxBackups then f (j - 1) else f j
-
-theorem renameChain_spec (f : Files) (m : Nat) (hm : f m = none ∨ m = 0) :
-    ∀ j, renameChain f m j = if j = 0 then (if m = 0 then f 0 else none) else if j ≤ m then f (j - 1) else f j := by
-  induction m generalizing f with
-  | zero => intro j; simp only [renameChain]; by_cases h : j = 0 <;> simp [h]
-  | succ k ih =>
-    intro j
-    have hfk : f (k+1) = none := by rcases hm with h | h; exact h; omega
-    simp only [renameChain]
-    -- after mv k (k+1): index k is empty, k+1 holds old k
-    have hmv : ∀ x, mv f k (k+1) x = if x = k+1 then f k else if x = k then none else f x := by
-      intro x; unfold mv
-      cases hk : f k with
-      | none =>
-        by_cases h1 : x = k+1
-        · simp [h1, hfk]
-        · by_cases h2 : x = k <;> simp [h1, h2, hk]
-      | some c =>
-        simp only [Files.set]
-        by_cases h1 : x = k+1
-        · subst h1; simp
-        · by_cases h2 : x = k <;> simp [h1, h2]
-    have hk0 : mv f k (k+1) k = none ∨ k = 0 := Or.inl (by rw [hmv]; simp)
-    rw [ih (mv f k (k+1)) hk0 j]
-    by_cases j0 : j = 0
-    · subst j0
-      by_cases k0 : k = 0
-      · subst k0; simp [hmv]
-      · simp [k0]
-    · simp only [j0, if_false]
-      by_cases jk : j ≤ k
-      · have : j - 1 ≠ k + 1 := by omega
-        have : j - 1 ≠ k := by omega
-        have : j ≤ k + 1 := by omega
-        simp [*]
-      · by_cases jk1 : j = k + 1
-        · subst jk1; simp [hmv]; intro h; omega
-        · have : ¬ j ≤ k + 1 := by omega
-          have : j ≠ k := by omega
-          simp [*]
-
-theorem rotateFiles_eq_shift (cfg : Cfg) (f : Files) : rotateFiles cfg f = shift cfg f := by
-  funext j
-  unfold rotateFiles shift
-  by_cases h : cfg.maxBackups < 1
-  · have : cfg.maxBackups = 0 := by omega
-    simp [this, Files.set]
-    by_cases j0 : j = 0 <;> simp [j0]
-  · simp only [h, if_false]
-    rw [renameChain_spec _ _ (Or.inl (by simp [Files.set]))]
-    by_cases j0 : j = 0
-    · have : cfg.maxBackups ≠ 0 := by omega
-      simp [j0, this]
-    · simp only [j0, if_false]
-      by_cases jm : j ≤ cfg.maxBackups
-      · have : j - 1 ≠ cfg.maxBackups := by omega
-        simp [jm, Files.set, this]
-      · have : j ≠ cfg.maxBackups := by omega
-        simp [jm, Files.set, this]
-
 /-- `Write` returns after at most one rotation (false for the unrepaired code when |b| > maxSize) -/
 theorem reopen_after_rotate (cfg : Cfg) (t : St) : (openIfNeeded (rotate cfg t)).size = 0 := by
   have h0 : (rotate cfg t).files 0 = none := by simp [rotate, rotateFiles_eq_shift, shift]
